@@ -400,6 +400,19 @@ func cmdCheck(args []string) int {
 	discharged := 0
 	bySolver := map[string]map[string]float64{}
 	var engineFault []string
+	var covers, vacuous []*Obligation
+	var nonCover []*Obligation
+	for _, o := range selected {
+		if o.Kind == "cover" {
+			covers = append(covers, o)
+			if o.Result == "unsat" {
+				vacuous = append(vacuous, o)
+			}
+			continue
+		}
+		nonCover = append(nonCover, o)
+	}
+	selected = nonCover
 	for _, o := range selected {
 		switch o.Result {
 		case "unsat":
@@ -468,9 +481,20 @@ func cmdCheck(args []string) int {
 			knownHit = append(knownHit, fmt.Sprintf("KNOWN-FINDING: property=%s %s", ps.ID, kf.Witness))
 			continue
 		}
-		path := report(name, map[string]interface{}{"property": ps.ID, "obligation": name, "kind": "translate",
-			"solver_output": te, "note": "the function could not be brought under its contract on this tree (structure changed or construct outside the verified subset); the obligations it carried on the pinned tree are therefore not discharged"})
-		violations = append(violations, fmt.Sprintf("VIOLATION property=%s replay=%s no-failing-input-found", ps.ID, path))
+		payload := map[string]interface{}{"property": ps.ID, "obligation": name, "kind": "translate",
+			"solver_output": te, "note": "the function could not be brought under its contract on this tree (structure changed or construct outside the verified subset); the obligations it carried on the pinned tree are therefore not discharged"}
+		suffix := " no-failing-input-found"
+		if cex := e.tryCounterexample(&Obligation{Name: name}, nil, *repo, *verif, opt); cex != nil {
+			payload["counterexample"] = cex.Inputs
+			payload["replay_outcome"] = cex.Outcome
+			payload["replay_log"] = cex.Log
+			if cex.Reproduced {
+				suffix = ""
+				payload["note"] = "the function does not fit its contract on this tree, and the bounded search of the replay harness found a failing input on the real code (see replay_log)"
+			}
+		}
+		path := report(name, payload)
+		violations = append(violations, fmt.Sprintf("VIOLATION property=%s replay=%s%s", ps.ID, path, suffix))
 	}
 	// baseline: obligations that existed on the pinned tree must still be generated
 	missing := checkBaseline(*verif, ps.ID, selected)
@@ -508,6 +532,10 @@ func cmdCheck(args []string) int {
 	for _, k := range knownHit {
 		fmt.Println(k)
 	}
+	for _, o := range vacuous {
+		engineFault = append(engineFault, "vacuous contract: the assumptions at "+o.Name+" are contradictory (every obligation after this point would be discharged trivially)")
+	}
+	_ = covers
 	if len(engineFault) > 0 {
 		for _, f := range engineFault {
 			fmt.Fprintln(os.Stderr, "ENGINE-FAULT:", f)
@@ -758,6 +786,13 @@ func cmdDump(args []string) int {
 	}
 	bad := 0
 	for _, o := range e.obls {
+		if o.Kind == "cover" {
+			if *solve && o.Result == "unsat" {
+				bad++
+				fmt.Printf("VACUOUS  %-10s %6.2fs %s\n", o.Solver, o.Seconds, o.Name)
+			}
+			continue
+		}
 		fmt.Printf("%-8s %-10s %6.2fs %s %v\n", o.Result, o.Solver, o.Seconds, o.Name, o.Tags)
 		if *solve && o.Result != "unsat" {
 			bad++
